@@ -338,7 +338,11 @@ theorem recvRecvHeaders_eq (s : Streams) (id : Nat) (h : HeadersIn) :
       match (s.stream id).state.recvOpen h.eos h.isInformational with
       | (_, .error e) => (s, .state e)
       | (st', .ok isInitial) =>
-        match recvHeadersCl (recvHeadersCount (s.modStream id fun st => { st with state := st' }) id h isInitial) id h with
+        let s := s.modStream id fun st => { st with state := st' }
+        if isInitial && !(s.stream id).isCounted && !s.counts.canIncNumRecvStreams then
+          (s, .state (PErr.libraryReset (s.stream id).id REFUSED_STREAM))
+        else
+        match recvHeadersCl (recvHeadersCount s id h isInitial) id h with
         | (s, some e) => (s, .state e)
         | (s, none) => recvHeadersQueue s id h isInitial := rfl
 
@@ -402,12 +406,15 @@ theorem view_recvRecvHeaders (s : Streams) (id : Nat) (h : HeadersIn) :
       | some x =>
         dsimp only
         rw [stream_of_get? _ id _ (Store.get?_set s.store x _ id hg (by rw [Store.get?_key _ _ _ hg])), stream_of_get? _ id _ hg]
-    cases r2 with
-    | some e =>
-      refine ⟨l, hv2, hl2, fun _ _ hne => absurd rfl (hne e)⟩
-    | none =>
-      dsimp only
-      refine ⟨l, by rw [view_recvHeadersQueue, hv2], hl2, fun hi hc _ => hl3 (hinit hi) (by rw [hcnt]; exact hc)⟩
+    split
+    · -- the concurrency limit was reached while the stream was only reserved: REFUSED_STREAM
+      exact ⟨(view s).lpi, by simp, Or.inl rfl, fun _ _ hne => absurd rfl (hne _)⟩
+    · cases r2 with
+      | some e =>
+        refine ⟨l, hv2, hl2, fun _ _ hne => absurd rfl (hne e)⟩
+      | none =>
+        dsimp only
+        refine ⟨l, by rw [view_recvHeadersQueue, hv2], hl2, fun hi hc _ => hl3 (hinit hi) (by rw [hcnt]; exact hc)⟩
 
 
 -- ===================================================================== apply_local_settings
